@@ -1,4 +1,5 @@
 import Vore.Lemmas.LexTokens
+import Vore.Model.LexSource
 /-!
 # C08 (lexer half) — the lexer is total
 
@@ -14,8 +15,10 @@ lexer are outcomes of the model (`popPanic`: `unread` on an empty position stack
 `HexToAscii`, `finalPanic`: `default:` of the final switch) and are proved unreachable, over the final
 switch table and the `IsHex` ranges re-extracted from the Go source on every run.
 
-Domain: the model is exact for ASCII sources (hypothesis `hascii`); the proof does not use it, so the
-model itself is total on all byte strings.
+Domain: the byte model `lex` is exact for ASCII sources; a source that is not ASCII is lexed through its class
+image (`lexSource`, Vore/Model/LexSource.lean and Unicode.lean: UTF-8 decoding as `ReadRune` does it, then one byte
+per rune standing for its `unicode.IsLetter/IsDigit/IsSpace` class), and `C08_lexer_total_all_sources` is the
+statement for every byte string.
 -/
 namespace Vore.Lex
 open Vore Vore.ExtractedLex
@@ -24,10 +27,11 @@ open Vore Vore.ExtractedLex
 def errorText (e : ErrKind) (startOff endOff : Nat) : String :=
   s!"LexError: {e.message} ({startOff} - {endOff})"
 
-/-- **C08, lexer.**  For every (ASCII) source the lexer returns either a token list that ends in
+/-- **C08, lexer.**  For every string over the lexer's alphabet (ASCII and the class bytes of non-ASCII runes:
+every byte string) the lexer returns either a token list that ends in
 exactly one EOF token (no EOF before the end) with at most one token per source byte plus the EOF,
 or a lex error of one of the four printable kinds; it never panics. -/
-theorem C08_lexer_total (src : Bytes) (_hascii : ∀ b ∈ src, b < 128) :
+theorem C08_lexer_total (src : Bytes) :
     (∃ ts, lex src = .tokens ts ∧
         (∃ pre e, ts = pre ++ [e] ∧ e.kind = .eof ∧ ∀ t ∈ pre, t.kind ≠ .eof) ∧
         ts.length ≤ src.length + 1) ∨
@@ -36,6 +40,22 @@ theorem C08_lexer_total (src : Bytes) (_hascii : ∀ b ∈ src, b < 128) :
   · exact Or.inl ⟨ts, h1, h2, h3⟩
   · refine Or.inr ⟨e, a, b, h, ?_⟩
     cases e <;> simp [errorText, ErrKind.message] <;> decide
+
+/-- **C08, lexer, every byte string.**  `lexSource` decodes the source into the runes `ReadRune` delivers (invalid
+UTF-8 included: U+FFFD, one byte at a time) and lexes their class image; for EVERY byte string it returns a token
+list ending in exactly one EOF token, with at most one token per source byte plus the EOF, or one of the four
+printable lex errors — never a panic; and on ASCII sources it is `lex`. -/
+theorem C08_lexer_total_all_sources (src : Bytes) :
+    ((∃ ts, lexSource src = .tokens ts ∧
+        (∃ pre e, ts = pre ++ [e] ∧ e.kind = .eof ∧ ∀ t ∈ pre, t.kind ≠ .eof) ∧
+        ts.length ≤ src.length + 1) ∨
+      (∃ e a b, lexSource src = .lexError e a b ∧ errorText e a b ≠ "")) ∧
+    ((∀ b ∈ src, b < 128) → lexSource src = lex src) := by
+  refine ⟨?_, lexSource_ascii src⟩
+  have hlen := Vore.Unicode.abstractSource_length src
+  rcases C08_lexer_total (Vore.Unicode.abstractSource src) with ⟨ts, h1, h2, h3⟩ | h
+  · exact Or.inl ⟨ts, h1, h2, by omega⟩
+  · exact Or.inr h
 
 /-- corollary: no panic -/
 theorem C08_lexer_no_panic (src : Bytes) (m : String) : lex src ≠ .panic m := by
@@ -77,6 +97,7 @@ example : lex [35] = .lexError .unknownToken 0 1 := by
 end Vore.Lex
 
 #print axioms Vore.Lex.C08_lexer_total
+#print axioms Vore.Lex.C08_lexer_total_all_sources
 #print axioms Vore.Lex.C08_lexer_no_panic
 #print axioms Vore.Lex.C08_lexer_tables
 #print axioms Vore.Lex.C08_lexer_progress
